@@ -29,6 +29,9 @@ class StreamV:
         self.write_calls = []     # list of lists (per write_all call)
         self.failed = False
         self.ops = []             # trace of (op, n)
+        self.refill = None        # optional callback(ip, stream, n): a reactive peer appends to `inbound` on demand
+        self.pending_at = set()   # read positions at which the first read attempt finds no data yet (Poll::Pending once)
+        self.on_write = None      # optional callback(ip, stream, data) after each write_all
 
     def __repr__(self):
         return "Stream(%s pos=%d/%d out=%d)" % (self.name, self.pos, len(self.inbound), len(self.out))
@@ -98,6 +101,8 @@ def do_io(ip, fut):
         if st.fail_reads and ip.choose(2, 'read_fault') == 1:
             st.failed = True
             return err(ip, io_error(ip, 'InjectedReadFault'))
+        if st.pos + n > len(st.inbound) and st.refill is not None:
+            st.refill(ip, st, n)
         if st.pos + n > len(st.inbound):
             st.pos = len(st.inbound)
             st.failed = True
@@ -122,6 +127,8 @@ def do_io(ip, fut):
             return err(ip, io_error(ip, 'InjectedWriteFault'))
         st.out.extend(data)
         st.write_calls.append(data)
+        if st.on_write is not None:
+            st.on_write(ip, st, data)
         return ok(ip, unit())
     if op in ('flush', 'shutdown'):
         st.ops.append((op, 0))
@@ -144,12 +151,21 @@ def m_io_future_poll(c, pin, cx):
         return ip.poll_hook(ip, fut, ptr)
     if not (isinstance(fut, Opaque) and fut.ty == 'IoFuture'):
         raise Inconclusive("poll of %r" % (fut,))
+    if fut.tag.startswith('read'):
+        st = stream_of(ip, fut.data[0])
+        if st.pos in st.pending_at:
+            st.pending_at.discard(st.pos)
+            st.ops.append(('pending', st.pos))
+            return poll_pending(ip)
     return poll_ready(ip, do_io(ip, fut))
 
 
 # ----------------------------------------------------------------------------- time
 def now_value(ip, tag):
-    """Fresh symbolic non-decreasing instant (nanoseconds, 64-bit) per clock family."""
+    """Fresh symbolic non-decreasing instant (nanoseconds, 64-bit) per clock family.
+    A harness may freeze the clocks (env['frozen_clock']): every reading is then the same instant."""
+    if ip.env.get('frozen_clock'):
+        return BV(64, ip.env['frozen_clock'])
     t = ip.fresh(64, tag)
     last = ip.env.get('last_' + tag)
     if last is not None:
@@ -441,7 +457,7 @@ def m_timeout_poll(c, pin, cx):
     ptr = pin.fields[0]
     t = ip.load(ptr.cell, ptr.path)
     dur, fut = t.data
-    if ip.choose(2, 'timeout_elapses') == 1:
+    if not ip.env.get('no_timeouts') and ip.choose(2, 'timeout_elapses') == 1:
         ip.env.setdefault('timeouts_elapsed', []).append(dur)
         ip.env.setdefault('events', []).append(('timeout_elapsed',))
         return poll_ready(ip, err(ip, Opaque('Elapsed', 'elapsed')))
